@@ -10,3 +10,4 @@ import XProofs.Properties.C18
 #print axioms Properties.C18.C18_writes_only_triggered_targets
 #print axioms Properties.C18.C18_recover_after_several_faults
 #print axioms Properties.C18.C18_recover_after_several_faults_expr
+#print axioms Properties.C18.C18_knob_recovery_fails
